@@ -4,6 +4,7 @@ package conc
 
 import (
 	"context"
+	"errors"
 	"fmt"
 	"strings"
 	"sync"
@@ -386,6 +387,100 @@ func (w *treeWorld) observe() {
 	}
 }
 
+// apiProbe issues every API call of node n in goroutines of their own and reports, at the next quiescent
+// point, whether each returned (C12: an API call returns ErrNotRunning or a result instead of blocking) and
+// whether an object obtained from a stopping publisher is itself shut down.
+type apiResult struct {
+	name     string
+	returned atomic.Bool
+	err      error
+	done     <-chan struct{}
+}
+
+func (w *treeWorld) apiProbe(n *tnode) []*apiResult {
+	var rs []*apiResult
+	run := func(name string, f func(r *apiResult)) {
+		r := &apiResult{name: name}
+		rs = append(rs, r)
+		go func() { f(r); r.returned.Store(true) }()
+	}
+	if n.pub != nil {
+		p := n.pub
+		run("Subscribe", func(r *apiResult) {
+			s, err := p.Subscribe()
+			r.err = err
+			if err == nil {
+				r.done = s.Done()
+			}
+		})
+		run("SubscribeWithFilter", func(r *apiResult) {
+			s, err := p.SubscribeWithFilter(filter.Null())
+			r.err = err
+			if err == nil {
+				r.done = s.Done()
+			}
+		})
+		run("SubscribeForFilter", func(r *apiResult) {
+			s, err := p.SubscribeForFilter()
+			r.err = err
+			if err == nil {
+				r.done = s.Done()
+			}
+		})
+		run("Clone", func(r *apiResult) {
+			c, err := p.Clone()
+			r.err = err
+			if err == nil {
+				r.done = c.Done()
+			}
+		})
+		run("CloneWithFilter", func(r *apiResult) {
+			c, err := p.CloneWithFilter(filter.Null())
+			r.err = err
+			if err == nil {
+				r.done = c.Done()
+			}
+		})
+		run("CloneForFilter", func(r *apiResult) {
+			c, err := p.CloneForFilter()
+			r.err = err
+			if err == nil {
+				r.done = c.Done()
+			}
+		})
+	}
+	if n.refil != nil {
+		w.tr.line(kv.L("refilter", fmt.Sprint(n.id), kv.Term{Op: "null"}.Sx()))
+		run("Refilter", func(r *apiResult) { r.err = n.refil(filter.Null()) })
+	}
+	if n.cache != nil {
+		run("List", func(r *apiResult) { _, r.err = n.cache.List() })
+		run("Get", func(r *apiResult) { _, r.err = n.cache.Get("a", "x") })
+	}
+	if n.closefn != nil {
+		run("Close", func(r *apiResult) { n.closefn() })
+	}
+	return rs
+}
+
+func (w *treeWorld) reportAPI(id int, phase string, rs []*apiResult) {
+	for _, r := range rs {
+		errs := "nil"
+		if r.err != nil {
+			errs = "other"
+			if errors.Is(r.err, kcache.ErrNotRunning) {
+				errs = "ErrNotRunning"
+			}
+		}
+		objdone := "none"
+		if r.done != nil {
+			objdone = kv.Bool(isClosed(r.done))
+		}
+		w.tr.line(kv.L("api", fmt.Sprint(id), phase, r.name, kv.Bool(r.returned.Load()), errs, objdone))
+		w.tr.stats["api"]++
+	}
+}
+
 func (w *treeWorld) step(f func()) {
 	f()
 	w.wait()
@@ -451,6 +546,9 @@ func runTreeScenario(t *testing.T, tr *tracer, idx int, seed uint64, mode string
 			})
 		}
 		steps := 8 + r.Intn(14)
+		if mode == "c12" {
+			steps = 0
+		}
 		if mode == "c07" {
 			// exhaustive family: contents x (f1, f2, f3); every filtered kind, Refilter at quiescence
 			fs := treeFilters()
@@ -533,6 +631,77 @@ func runTreeScenario(t *testing.T, tr *tracer, idx int, seed uint64, mode string
 					}
 				})
 			}
+		}
+		if mode == "c12" {
+			// shutdown-point enumeration: the trigger is fired after step (idx % 14) of a workload that is the
+			// same for 14 consecutive scenarios; API calls race with it and are repeated after it
+			wr := kv.NewRand(seed*977 + uint64(idx/14))
+			w.r = wr
+			point := idx % 14
+			for i := 0; i < point; i++ {
+				switch x := wr.Intn(100); {
+				case x < 40:
+					w.step(w.srvEvent)
+				case x < 70:
+					w.step(func() { w.attach(kinds) })
+				case x < 85:
+					w.step(w.refilter)
+				case x < 92:
+					w.step(w.relist)
+				default:
+					w.step(func() { w.burst(kinds) })
+				}
+			}
+			w.r = r
+			trigger := (idx / 14) % 3
+			var racing [][]*apiResult
+			var ids []int
+			tr.line(kv.L("burst-begin"))
+			for _, n := range w.nodes {
+				if r.Chance(1, 2) {
+					racing = append(racing, w.apiProbe(n))
+					ids = append(ids, n.id)
+				}
+			}
+			switch trigger {
+			case 0:
+				tr.line(kv.L("closeroot"))
+				go root.Close()
+			case 1:
+				tr.line(kv.L("closeroot"))
+				for i := 0; i < 4; i++ {
+					go root.Close()
+				}
+			default:
+				tr.line(kv.L("cancel"))
+				w.cancel()
+			}
+			tr.line(kv.L("burst-end"))
+			for _, n := range w.nodes {
+				n.closed = true
+				if n.stalled {
+					w.release(n)
+				}
+			}
+			w.wait()
+			w.observe()
+			for i, rs := range racing {
+				w.reportAPI(ids[i], "racing", rs)
+			}
+			var after [][]*apiResult
+			for _, n := range w.nodes {
+				after = append(after, w.apiProbe(n))
+			}
+			w.wait()
+			for i, rs := range after {
+				w.reportAPI(w.nodes[i].id, "after", rs)
+			}
+			w.cancel()
+			time.Sleep(5 * time.Second)
+			synctest.Wait()
+			tr.line(kv.L("end"))
+			tr.stats["scenarios"]++
+			return
 		}
 		// shut down: Close or context cancellation; everything must finish (synctest fails the run
 		// if a goroutine of the bubble stays blocked)
